@@ -51,7 +51,8 @@ Mutate(c, muts) ==
     params  |-> IF "params" \in muts THEN "dirty" ELSE c.params,
     errors  |-> c.errors + (IF "error" \in muts THEN 1 ELSE 0),
     aborted |-> c.aborted \/ "abort" \in muts,
-    status  |-> IF "write" \in muts THEN 201 ELSE (IF c.status = 0 THEN 200 ELSE c.status),   \* end-of-dispatch commit
+    \* "hijack": responseWriter.Hijack marks the response as written (length 0) without committing a status
+    status  |-> IF "write" \in muts THEN 201 ELSE IF "hijack" \in muts THEN c.status ELSE (IF c.status = 0 THEN 200 ELSE c.status),   \* end-of-dispatch commit
     length  |-> IF "write" \in muts THEN 3 ELSE 0,
     resp    |-> IF "resp" \in muts THEN "replaced" ELSE c.resp,
     req     |-> IF "req" \in muts THEN "replaced" ELSE c.req ]
